@@ -142,7 +142,13 @@ def _cli_case(ctx, d, rng, tmp, it, opt):
     # the rotation set the tool will use (24 grid rotations, in the tool's order: inner jobs get contiguous chunks)
     from tme.matching_utils import get_rotation_matrices
     Rset = np.asarray(get_rotation_matrices(angular_sampling=60, dim=3), dtype=np.float64)
-    ridx = int(rng.integers(0, 12)) if (peak_calling and split) else int(rng.integers(0, len(Rset)))
+    jobs = int(opt.get("jobs", 2))
+    if peak_calling and split:
+        ridx = int(rng.integers(0, 12))
+    elif len(Rset) % jobs:
+        ridx = len(Rset) - 1 - int(rng.integers(0, len(Rset) % jobs))     # among the rotations only the last job's remainder covers
+    else:
+        ridx = int(rng.integers(0, len(Rset)))
     R = Rset[ridx]
     Rinv = R.T
     perm = [int(np.argmax(np.abs(Rinv[i]))) for i in range(3)]
@@ -170,7 +176,7 @@ def _cli_case(ctx, d, rng, tmp, it, opt):
     _write_mrc(os.path.join(case_dir, "target.mrc"), target)
     _write_mrc(os.path.join(case_dir, "template.mrc"), template)
     cmd = [env.PY, os.path.join(env.REPO, "scripts", "match_template.py"), "-m", "target.mrc", "-i", "template.mrc",
-           "-o", "out.pickle", "-s", score, "-a", "60", "-n", "2", "--interpolation_order", "1"]
+           "-o", "out.pickle", "-s", score, "-a", "60", "-n", str(jobs), "--interpolation_order", "1"]
     if score == "MCC":      # the doubly-masked score needs a target mask
         _write_mrc(os.path.join(case_dir, "tmask.mrc"), np.ones(ns))
         cmd += ["--target_mask", "tmask.mrc"]
@@ -282,6 +288,8 @@ def run(ctx):
             "peak_caller": callers[it % len(callers)],
             "border": bool(it % 4 == 0),
             "use_memmap": bool(it % 7 == 3),
+            # inner jobs: 2 divides the 24 rotations; 5 and 7 do not (the last job gets the remainder)
+            "jobs": 2 if (it % 3 == 1 and it % 2 == 1) else [5, 2, 7, 2, 2][it % 5],
         })
     # it=0: no centring, even box, --pad_edges, score map;  it=1: -p, memory-limited split, 2 cores, odd box, no centring
     # run the subprocess cases on a few workers
